@@ -17,7 +17,9 @@
 (***************************************************************************)
 EXTENDS Integers, Sequences, FiniteSets, TLC
 CONSTANTS Topics,          \* entities
-          PurgeExclusive   \* TRUE: purge takes the lock exclusively (repaired); FALSE: shared (as found)
+          PurgeExclusive,  \* TRUE: purge takes the lock exclusively (repaired); FALSE: shared (as found)
+          ReleaseEarly     \* kinds of command that give the lock up BEFORE they journal instead of downgrading ({} as coded; a
+                           \* handler that re-acquires the shared lock for its journal entry is a second negative control)
 Kinds == {"create", "purge", "delete"}
 Cmds == Kinds \X Topics
 VARIABLES exists,    \* topics that exist (the in-memory catalogue)
@@ -38,7 +40,8 @@ Begin(c) ==
     /\ pc[c] = "idle"
     /\ NeedsExclusive(c) => readers = {}
     /\ IF Applicable(c, exists)
-       THEN exists' = EffectOn(c, exists) /\ readers' = readers \cup {c} /\ pc' = [pc EXCEPT ![c] = "journal"]
+       THEN /\ exists' = EffectOn(c, exists) /\ pc' = [pc EXCEPT ![c] = "journal"]
+            /\ readers' = IF c[1] \in ReleaseEarly THEN readers ELSE readers \cup {c}
        ELSE UNCHANGED <<exists, readers>> /\ pc' = [pc EXCEPT ![c] = "refused"]
     /\ UNCHANGED journal
 (* the command is journalled (appends are serialized) and acknowledged; the shared lock is released *)
